@@ -35,13 +35,13 @@ theorem produce_progress {c : Cfg} {σ : RunSt} {g : Ghost} (hc : LiveCfg c) (h 
      else (produce c σ.n).1.q.mem = σ.n.q.mem.tail) := by
   have hl := h.live
   have hi := hl.toInv
-  have hτ : σ.n.prod.lastState.lastTime ≤ c.p.genesisTime + (σ.n.tick + 1) * 1000 :=
+  have hτ : σ.n.prod.lastState.lastTime ≤ stamp c σ.n .real :=
     Nat.le_trans (lastTime_le (c := c) hi h.tb) (bound_mono c _)
   have habove : σ.n.prod.store.getBlock (σ.n.prod.store.height + 2) = none := hi.above _ (by omega)
   cases hpb : σ.n.prod.store.getBlock (σ.n.prod.store.height + 1) with
   | some pb =>
     have hask : asksSequencer c σ.n = false := by unfold asksSequencer; rw [hpb]; simp
-    rw [produce_noask c σ.n .ok hask]
+    rw [produce_noask c σ.n .ok .real hask]
     simp only [Option.isSome_some, ↓reduceIte, and_true]
     obtain ⟨_, hh⟩ := live_commits hl hc.noLimit hc.signer hc.proposer [] _ [] hτ
     rw [← publish_pending_irrel hpb .absent] at hh
@@ -61,7 +61,7 @@ theorem produce_progress {c : Cfg} {σ : RunSt} {g : Ghost} (hc : LiveCfg c) (h 
         rw [if_neg hfirst, hb]; rfl
     have hask : asksSequencer c σ.n = true := by
       unfold asksSequencer; rw [hnr, hprev, hpb]; rfl
-    rw [produce_ask c σ.n .ok hask]
+    rw [produce_ask c σ.n .ok .real hask]
     simp only [Option.isSome_none, Bool.false_eq_true, ↓reduceIte]
     constructor
     · obtain ⟨_, hh⟩ := live_commits hl hc.noLimit hc.signer hc.proposer
@@ -69,7 +69,7 @@ theorem produce_progress {c : Cfg} {σ : RunSt} {g : Ghost} (hc : LiveCfg c) (h 
       obtain ⟨v, eb, _, _, hsh, hst⟩ := (publish_tx hi hc.signer (batchOf (Queue.getNext key c.qc σ.n.q c.qc.id).2) _ hτ .ok).2
         hpb hnr hprev
       generalize publish c.p σ.n.prod (.batch (batchOf (Queue.getNext key c.qc σ.n.q c.qc.id).2)
-        (c.p.genesisTime + (σ.n.tick + 1) * 1000) []) .ok = r at hh hsh hst
+        (stamp c σ.n .real) []) .ok = r at hh hsh hst
       show r.1.store.getBlock (r.1.store.height + 1) = none
       rcases hsh with hsh | ⟨_, fb, st, _, _, _, hsh⟩
       · exfalso
